@@ -2,7 +2,9 @@ package scen
 
 import (
 	"fmt"
+	"hash/fnv"
 	"os"
+	"path/filepath"
 	"sync"
 	"syscall"
 
@@ -35,6 +37,7 @@ type ioFaults struct {
 	cfg    *IOErrCfg
 	fired  int
 	active bool
+	salt   int
 }
 
 var curFaults *ioFaults
@@ -43,7 +46,9 @@ type simzapPlugin struct{ zapv17.ZapPlugin }
 
 func (p *simzapPlugin) Type() string { return simzapType }
 
-func (f *ioFaults) should(kind string) error {
+// should decides whether the call on path fails. The decision is a function of (per-run salt, file name), not of
+// the order of calls: scorch opens the files of one persist round in map-iteration order.
+func (f *ioFaults) should(kind, path string) error {
 	if f == nil {
 		return nil
 	}
@@ -52,7 +57,9 @@ func (f *ioFaults) should(kind string) error {
 	if !f.active || f.fired >= f.cfg.Max || f.c.Sched == nil || f.c.Sched.Me() == "" {
 		return nil
 	}
-	if f.c.Tape.Intn(f.cfg.Rate) != 0 {
+	h := fnv.New32a()
+	fmt.Fprintf(h, "%d|%s|%s", f.salt, kind, filepath.Base(path))
+	if int(h.Sum32()%uint32(f.cfg.Rate)) != 0 {
 		return nil
 	}
 	f.fired++
@@ -64,7 +71,7 @@ func (f *ioFaults) should(kind string) error {
 }
 
 func (p *simzapPlugin) OpenUsing(path string, config map[string]interface{}) (segment.Segment, error) {
-	if err := curFaults.should("open"); err != nil {
+	if err := curFaults.should("open", path); err != nil {
 		return nil, err
 	}
 	return p.ZapPlugin.OpenUsing(path, config)
@@ -72,7 +79,7 @@ func (p *simzapPlugin) OpenUsing(path string, config map[string]interface{}) (se
 
 func (p *simzapPlugin) MergeUsing(segments []segment.Segment, drops []*roaring.Bitmap, path string,
 	closeCh chan struct{}, s segment.StatsReporter, config map[string]interface{}) ([][]uint64, uint64, error) {
-	if err := curFaults.should("merge"); err != nil {
+	if err := curFaults.should("merge", path); err != nil {
 		if curFaults.cfg.LeaveFile {
 			_ = os.WriteFile(path, []byte("partial merge output"), 0o600)
 		}
@@ -86,7 +93,7 @@ func init() {
 }
 
 func installIOFaults(c *core.Ctx, cfg *IOErrCfg) *ioFaults {
-	f := &ioFaults{c: c, cfg: cfg, active: true}
+	f := &ioFaults{c: c, cfg: cfg, active: true, salt: c.Tape.Intn(1 << 30)}
 	curFaults = f
 	return f
 }
@@ -105,4 +112,3 @@ func (f *ioFaults) stop() {
 
 func (f *ioFaults) uninstall() { curFaults = nil }
 
-var _ = fmt.Sprint
